@@ -22,7 +22,7 @@ from hypergraph.runners._shared.event_helpers import (
     build_route_decision_event,
 )
 from hypergraph.runners._shared.helpers import collect_inputs_for_node
-from hypergraph.runners._shared.types import GraphState, NodeExecution
+from hypergraph.runners._shared.types import GraphState, NodeExecution, PauseExecution
 
 if TYPE_CHECKING:
     from hypergraph.cache import CacheBackend
@@ -172,7 +172,12 @@ async def run_superstep_async(
     first_error: BaseException | None = None
     for result in results:
         if isinstance(result, BaseException):
-            if first_error is None:
+            # A pause (of a nested graph running beside other nodes) wins over a
+            # failure of one of those nodes, whatever their order: the run pauses,
+            # and the failing node runs - and fails - again once it is resumed.
+            # Otherwise the outcome would depend on the order of the node list, and
+            # a FAILED run would end over the spans the paused graph left open.
+            if first_error is None or (isinstance(result, PauseExecution) and not isinstance(first_error, PauseExecution)):
                 first_error = result
             continue
         node, outputs, input_versions, wait_for_versions = result
